@@ -84,6 +84,7 @@ class Model(object):
             return [('ISA',)] + ([('ISA', 'other')] if self.n_isa else [])
         if top == 'ISA':
             evs.append(('GS',))
+            evs.append(('GS', 'pad'))             # a zero-padded control number: GE02 repeats it as written
             if any(x[0] == 'GS' for x in self.out[self.stack[-1][2]:]):
                 evs.append(('GS', 'dup'))         # the control number of the previous group again: an error for a reader, but still a group
         if top == 'GS':
@@ -145,9 +146,11 @@ class Model(object):
         elif k == 'GS':
             assert self.stack[-1][0] == 'ISA'
             n = sum(1 for s in self.out[self.stack[-1][2]:] if s[0] == 'GS') + 1
-            if len(ev) > 1:
+            if len(ev) > 1 and ev[1] == 'dup':
                 n -= 1
             cid = '%d' % (self.n_isa * 100 + n)
+            if len(ev) > 1 and ev[1] == 'pad':
+                cid = '00' + cid
             vers = '004010X098A1' if icvn == '00401' else '005010X222A1'
             parts = ['GS', 'HC', 'S', 'R', '20040608', '1333', cid, 'X', vers]
             self.inputs.append(sele.join(parts))
